@@ -10,20 +10,27 @@
          outcome (run api (input shape depth)) = Success \/ exists e, outcome (...) = ErrorValue e
        /\ exists B, forall input, stack_bytes (run api input) <= B.        -- B independent of the depth
 
-   What IS proved here, for all inputs, is the part a model can carry — every theorem is named [_partial]:
-   recursion depth and heap-stack length as functions of the nesting depth, the flow-depth limit, and the
-   REFUTATION of any bound on block nesting in the current code ([_refuted]).  Together with the measured
-   frame sizes this explains the recorded finding (known_findings_c11.jsonl): the three recursive consumers
-   recurse once per nesting level and nothing limits block nesting.
+   What IS proved here, for all inputs, is the part a model can carry — positive statements are named [_partial]:
+   (a) the pull parser keeps its continuation on the heap; (b) recursion depth of the push loader and of tree
+   traversals = nesting depth; (c) the scanner's flow-level limit; (g) for EVERY token stream the parser nests at
+   most twice as deep as the tokens; (h) for EVERY input the flow level of the scanned token stream is within the
+   limit; (i) both composed: for EVERY text the nesting is at most 2 * (255 + block collection starts + synthetic
+   FlowMappingStart tokens), so the recursion of (b) is bounded by that; (j) the same as an executable oracle.
+   And the REFUTATION of any bound in the current code ([_refuted]): (d) block nesting, (e) the remaining flow-limit
+   bypass — exactly the two kinds of token (i) charges.  (f): the bypass repaired by c5ad60c is rejected.
+   Together with the measured frame sizes this explains the recorded findings (known_findings_c11.jsonl): the three
+   recursive consumers recurse once per nesting level, nothing limits block nesting and the flow limit does not see
+   the mappings of bare ':' indicators.
 
-   Model: Model/Parser.v (pull parser), Model/Depth.v (push loader load_node/load_sequence/load_mapping,
-   structural tree traversal, witness family), Model/Loader.v (tree), Model/SPrim.v (increase_flow_level),
-   Gen/Consts.v (FLOW_LEVEL_MAX, generated from the declared type of Scanner::flow_level).
-   Only statements, each closed by [exact] of a lemma of Proofs/DepthProofs.v. *)
+   Model: Model/Parser.v (pull parser), Model/SBase/SPrim/SDir/SScalar/SFetch.v (scanner), Model/Depth.v (push loader
+   load_node/load_sequence/load_mapping, structural tree traversal, token nesting, flow level of a token stream,
+   witness families, oracle), Model/Loader.v (tree), Gen/Consts.v (FLOW_LEVEL_MAX, generated from the declared type
+   of Scanner::flow_level).  Proofs: Proofs/DepthProofs.v (a)-(f), DepthTok.v + DepthTokRun.v (g), DepthScan.v (h),
+   DepthText.v (i), (j).  Only statements here, each closed by [exact] of a lemma. *)
 From Coq Require Import List NArith Bool.
 Import ListNotations.
-Require Import Parser SFetch Pipe Drivers Grammar Resolver Loader C02run Depth DepthProofs.
-Require SBase SPrim Consts.
+Require Import Parser SFetch Pipe Drivers Grammar Resolver Loader C02run Depth DepthProofs DepthTok DepthTokRun DepthScan DepthTree DepthText.
+Require SBase SPrim SBuf Consts.
 Local Open Scope nat_scope.
 
 (* (a) The pull parser (iterator API) is not recursive: [state_machine] is a non-recursive definition whose
@@ -56,8 +63,8 @@ Print Assumptions C11_tree_recursion_partial.
 
 (* (c) Flow nesting is limited: the only function of the scanner model that raises flow_level is
    increase_flow_level; from a level within the limit it either succeeds with a level still within the
-   limit, or — exactly at FLOW_LEVEL_MAX — fails with error site 45 ("recursion limit exceeded").  Hence
-   flow collections nest at most FLOW_LEVEL_MAX = 255 deep and deeper input is an error VALUE. *)
+   limit, or — exactly at FLOW_LEVEL_MAX — fails with error site 45 ("recursion limit exceeded"): the 256th nested
+   '[' or '{' is an error VALUE.  (What this does and does not bound: (e), (h), (i).) *)
 Theorem C11_flow_level_bounded_partial : forall (I : Type) (s : SBase.sc I),
   (SBase.sc_flow_level s <= Consts.FLOW_LEVEL_MAX)%N ->
   match SPrim.increase_flow_level s with
@@ -105,26 +112,150 @@ Theorem C11_recursion_unbounded_refuted :
 Proof. exact recursion_unbounded. Qed.
 Print Assumptions C11_recursion_unbounded_refuted.
 
-(* (e) The flow limit can be BYPASSED (second recorded finding).  For every d >= 1 the token stream of
-         "[ ? ] , " * (d-1) ++ "[ ? ] " ++ "]" * d
-   — 5d+1 tokens; the scanner's flow level along it (+1 at a flow collection start, -1 at a flow collection
-   end) never exceeds 1, so increase_flow_level never fails — is accepted by the parser model and its events
-   nest d+1 deep: flow_sequence_entry_mapping_key consumes the "]" that ends the empty key "?", the parser
-   stays inside the sequence and the next "[" opens a sequence INSIDE it. *)
+(* (e) The flow limit can still be BYPASSED (recorded finding, class C11-flow-limit-bypass).  For every d >= 1 the
+   token stream of
+         "[" ++ " :" * d ++ " " ++ "}" * d ++ "]"
+   — 3d+4 tokens: the else-branch of fetch_value pushes one SYNTHETIC (empty-span) FlowMappingStart per bare ':'
+   without touching flow_level, so the scanner's flow level along the stream ([tok_flow_max]: +1 at a '[' or '{'
+   token, -1 at a flow collection end) never exceeds 1 and increase_flow_level never fails — is ACCEPTED by the
+   parser model and its events nest d+1 deep (the sequence and d mappings). *)
 Theorem C11_flow_limit_bypass_family : forall d keep se,
   1 <= d ->
-  length (qflow_tokens d) = 5 * d + 1
-  /\ tok_flow_max (qflow_tokens d) = 1
-  /\ parse_tokens (qflow_tokens d) se keep = (evsp (qflow_events d), PDone)
-  /\ max_nesting (qflow_events d) = d + 1.
+  length (cflow_tokens d) = 3 * d + 4
+  /\ tok_flow_max (cflow_tokens d) = 1
+  /\ parse_tokens (cflow_tokens d) se keep = (evsp (cflow_events d), PDone)
+  /\ max_nesting (cflow_events d) = d + 1.
 Proof. exact flow_limit_bypass. Qed.
 Print Assumptions C11_flow_limit_bypass_family.
 
 (* so "a token stream whose flow level stays within L is nested at most L+1 deep" is false for every L >= 1,
-   in particular for L = FLOW_LEVEL_MAX: theorem (c) does not bound the nesting of flow collections *)
+   in particular for L = FLOW_LEVEL_MAX: theorem (c) alone does not bound the nesting of flow collections *)
 Theorem C11_flow_limit_bounds_nesting_refuted : forall L, 1 <= L -> ~ flow_limit_bounds_nesting L.
 Proof. exact flow_limit_does_not_bound_nesting. Qed.
 Print Assumptions C11_flow_limit_bounds_nesting_refuted.
+
+(* (f) The FIRST bypass family is gone (repaired by c5ad60c; was theorem C11_flow_limit_bypass_family before).  For
+   every d >= 1 the token stream of
+         "[ ? ] , " * (d-1) ++ "[ ? ] " ++ "]" * d
+   — 5d+1 tokens, flow level 1 — is REJECTED by the parser model: flow_sequence_entry_mapping_key no longer consumes
+   the "]" that ends the empty key, the first "[ ? ]" is a complete document (nine events, nesting 2) and the "," or
+   "]" behind it is parse error site 3 ("did not find expected <document start>"): an error VALUE at every depth. *)
+Theorem C11_qflow_family_rejected : forall d keep se,
+  1 <= d ->
+  length (qflow_tokens d) = 5 * d + 1
+  /\ tok_flow_max (qflow_tokens d) = 1
+  /\ parse_tokens (qflow_tokens d) se keep = (evsp qflow_prefix_events, PParseErr 3 mk00)
+  /\ max_nesting qflow_prefix_events = 2.
+Proof. exact qflow_rejected. Qed.
+Print Assumptions C11_qflow_family_rejected.
+
+(* (g) What IS bounded, for EVERY token stream (accepted or not, any fuel): the pull parser opens a collection only for a
+   collection-start token (BlockSequenceStart, BlockMappingStart, FlowSequenceStart, FlowMappingStart — synthetic or not)
+   plus at most one "free" collection directly inside it (the indentless sequence of a block mapping, the single-pair
+   mapping of a flow sequence entry), and it consumes a collection-end token (BlockEnd, FlowSequenceEnd,
+   FlowMappingEnd) only by closing the collection it ends.  So in every reachable state the collections open in the
+   events delivered so far number at most twice the nesting of the token stream ([tok_nest_max]: +1 at a start token,
+   -1 at an end token).  This is the statement the repaired defect (family (f): a FlowSequenceEnd consumed without
+   closing anything) violated; the factor 2 is reached ("[ ? [ ? [ ? a ] ] ]", example below). *)
+Theorem C11_open_collections_bounded_by_token_nesting_partial : forall toks keep p evs,
+  reach (init_parser toks keep) p evs -> open_depth evs <= 2 * tok_nest_max toks.
+Proof. exact open_depth_bounded_by_token_nesting. Qed.
+Print Assumptions C11_open_collections_bounded_by_token_nesting_partial.
+
+(* ... hence the nesting depth of the events of a whole run — which is the recursion depth of Parser::load, of the
+   destructor and of the emitter by (b1), (b2) — is at most twice the nesting of the tokens *)
+Theorem C11_nesting_bounded_by_token_nesting_partial : forall toks keep se fuel,
+  max_nesting (evs_of (fst (parse_all fuel (init_parser toks keep) se []))) <= 2 * tok_nest_max toks.
+Proof. exact nesting_bounded_by_token_nesting. Qed.
+Print Assumptions C11_nesting_bounded_by_token_nesting_partial.
+
+(* (h) The scanner, for EVERY input (any Input back-end [ops], any fuel), however the scan ends: along the token stream
+   it delivers, the '[' / '{' tokens not yet matched by a ']' / '}' token never outnumber flow_level, and flow_level
+   never exceeds FLOW_LEVEL_MAX (invariant [G] of Proofs/DepthScan.v, over every function of the scanner model).
+   "Flow nesting is bounded" as a statement about text: [tok_flow_max] of what the scanner makes of it is <= 255. *)
+Theorem C11_scanner_flow_level_bounded_partial : forall (I : Type) (ops : SBase.InputOps I) (F fuel : nat) (i : I),
+  tok_flow_max (fst (scan_all ops F fuel (SBase.init_sc i) [])) <= N.to_nat Consts.FLOW_LEVEL_MAX.
+Proof. exact (@scan_flow_level_bounded). Qed.
+Print Assumptions C11_scanner_flow_level_bounded_partial.
+
+(* ... and the '[' / '{' tokens ARE counted by [tok_flow_max]: whenever fetch_flow_collection_start returns, it has
+   pushed (last in the queue) a token of the indicator's kind whose span is not empty — so [real_flow_open] holds for
+   it — and has raised flow_level by one.  (The synthetic FlowMappingStart of fetch_value has an empty span by
+   construction: span_empty.) *)
+Theorem C11_flow_indicator_tokens_are_counted_partial :
+  forall (I : Type) (ops : SBase.InputOps I) (F : nat) (seq : bool) (s : SBase.sc I) u s',
+  fetch_flow_collection_start ops F seq s = SBase.Ok (u, s') ->
+  exists mid t, SBase.sc_tokens s' = mid ++ [t] /\ real_flow_open t = true
+                /\ snd t = (if seq then TFlowSequenceStart else TFlowMappingStart)
+                /\ SBase.sc_flow_level s' = (SBase.sc_flow_level s + 1)%N.
+Proof. exact (@fetch_flow_collection_start_counted). Qed.
+Print Assumptions C11_flow_indicator_tokens_are_counted_partial.
+
+(* (i) Both together, for EVERY text through the whole model pipeline [run_str] (accepted or not): the events nest at
+   most twice as deep as FLOW_LEVEL_MAX plus the number of collection-start tokens that the flow level does not
+   count — block collection starts and the synthetic FlowMappingStart tokens of implicit pairs.  These two kinds of
+   token are exactly the two recorded classes of finding (block nesting (d), bypass family (e)): nothing else can
+   nest without limit. *)
+Theorem C11_text_nesting_bounded_partial : forall text,
+  max_nesting (evs_of (fst (run_str text)))
+  <= 2 * (N.to_nat Consts.FLOW_LEVEL_MAX + other_openers (fst (scan_str text))).
+Proof. exact run_str_nesting_bounded. Qed.
+Print Assumptions C11_text_nesting_bounded_partial.
+
+(* the same over the buffered input back-end of ANY capacity (the scanner theorem (h) holds for every back-end) *)
+Theorem C11_text_nesting_bounded_buffered_partial : forall cap text,
+  max_nesting (evs_of (fst (SBuf.run_buf cap text)))
+  <= 2 * (N.to_nat Consts.FLOW_LEVEL_MAX + other_openers (fst (scan_buf cap text))).
+Proof. exact run_buf_nesting_bounded. Qed.
+Print Assumptions C11_text_nesting_bounded_buffered_partial.
+
+Theorem C11_pure_flow_text_nesting_bounded_partial : forall text,
+  other_openers (fst (scan_str text)) = 0 ->
+  max_nesting (evs_of (fst (run_str text))) <= 2 * N.to_nat Consts.FLOW_LEVEL_MAX.
+Proof. exact pure_flow_text_nesting_bounded. Qed.
+Print Assumptions C11_pure_flow_text_nesting_bounded_partial.
+
+(* ... and with (b1): whenever load_document (Parser::load) returns on the events of a run, the deepest chain of
+   load_node activations is at most 1 + twice the nesting of the tokens — for a text: at most
+   1 + 2 * (255 + uncounted collection starts) *)
+Theorem C11_push_loader_recursion_bounded_by_tokens_partial : forall toks keep se fuel fuel' rest m,
+  pl_document fuel' (tl (evs_of (fst (parse_all fuel (init_parser toks keep) se [])))) = PlDone rest m ->
+  m <= 1 + 2 * tok_nest_max toks.
+Proof. exact push_loader_recursion_bounded_by_tokens. Qed.
+Print Assumptions C11_push_loader_recursion_bounded_by_tokens_partial.
+
+Theorem C11_push_loader_recursion_bounded_for_text_partial : forall text fuel' rest m,
+  pl_document fuel' (tl (evs_of (fst (run_str text)))) = PlDone rest m ->
+  m <= 1 + 2 * (N.to_nat Consts.FLOW_LEVEL_MAX + other_openers (fst (scan_str text))).
+Proof. exact push_loader_recursion_bounded_for_text. Qed.
+Print Assumptions C11_push_loader_recursion_bounded_for_text_partial.
+
+(* ... and with (b2), for the LOADED tree (drop, clone, eq, hash, emit): every event sentence the grammar accepts and
+   that holds no alias loads — without panic — to documents that are no deeper than the events nest; so for every
+   accepted alias-free text a recursive traversal entered at depth d reaches at most d + 2 * (255 + uncounted starts).
+   (An alias copies the completed anchored node into the tree: with aliases the tree can be deeper than the events
+   nest — example C11_alias_deepens_the_tree below; not covered.) *)
+Theorem C11_loaded_tree_depth_bounded_partial : forall evs,
+  grun GInit evs = Some GEnd -> alias_free_events evs = true ->
+  exists ld, load_events evs l0 = LOk ld
+             /\ Forall (fun y => ydepth y <= max_nesting evs /\ forall d, ywalk d y <= d + max_nesting evs) (l_docs ld).
+Proof. exact loaded_tree_depth_bounded. Qed.
+Print Assumptions C11_loaded_tree_depth_bounded_partial.
+
+Theorem C11_loaded_tree_walk_bounded_for_text_partial : forall text,
+  snd (run_str text) = PDone -> alias_free_events (evs_of (fst (run_str text))) = true ->
+  exists ld, load_events (evs_of (fst (run_str text))) l0 = LOk ld
+             /\ Forall (fun y => forall d, ywalk d y <= d + 2 * (N.to_nat Consts.FLOW_LEVEL_MAX + other_openers (fst (scan_str text))))
+                        (l_docs ld).
+Proof. exact loaded_tree_walk_bounded_for_text. Qed.
+Print Assumptions C11_loaded_tree_walk_bounded_for_text_partial.
+
+(* (j) The three inequalities of (h), (g), (i) as ONE executable oracle [c11_oracle] (Model/Depth.v) — extracted and run
+   by vlib/p_c11.py on the IMPLEMENTATION's tokens and events; on the model it can never fail: *)
+Theorem C11_oracle_holds_on_model : forall text,
+  c11_oracle (fst (scan_str text)) (evs_of (fst (run_str text))) = (true, true, true).
+Proof. exact oracle_holds_on_model. Qed.
+Print Assumptions C11_oracle_holds_on_model.
 
 (* ---- non-vacuity / anchoring examples ---- *)
 (* the limit the theorems speak about is the one of the code: u8 *)
@@ -163,31 +294,92 @@ Proof. reflexivity. Qed.
 Example C11_depth_measures :
   max_nesting (seq_events 3) = 3 /\ ydepth (YSeq [YMap [(YBad, YSeq [YBad])]]) = 3 /\ ydepth (YSeq []) = 0.
 Proof. repeat split; reflexivity. Qed.
-(* the bypass family, concretely (d = 3): the text, what the SCANNER MODEL makes of it, its flow level, and the
-   three nested sequences the parser model delivers *)
-Example C11_bypass_3_text :      (* the code points of  [ ? ] , [ ? ] , [ ? ] ]]]  *)
-  qflow_text 3 = [91; 32; 63; 32; 93; 32; 44; 32; 91; 32; 63; 32; 93; 32; 44; 32; 91; 32; 63; 32; 93; 32; 93; 93; 93]%N.
+(* the bypass family, concretely (d = 3): the text, what the SCANNER MODEL makes of it (synthetic FlowMappingStart
+   tokens have empty spans, the '[' has not), its flow level, and the nested mappings the parser model delivers *)
+Example C11_bypass_3_text :      (* the code points of  [ : : : }}}]  *)
+  cflow_text 3 = [91; 32; 58; 32; 58; 32; 58; 32; 125; 125; 125; 93]%N.
 Proof. reflexivity. Qed.
 Example C11_bypass_3_scanned :
+  map snd (fst (scan_str (cflow_text 3))) = map snd (cflow_tokens 3) /\ snd (scan_str (cflow_text 3)) = SEnded
+  /\ map real_flow_open (fst (scan_str (cflow_text 3))) = map real_flow_open (cflow_tokens 3)
+  /\ tok_flow_max (fst (scan_str (cflow_text 3))) = 1.
+Proof. vm_compute. repeat split; reflexivity. Qed.
+Example C11_bypass_3_events :
+  evs_of (fst (parse_tokens (cflow_tokens 3) SEnded false))
+  = [EStreamStart; EDocumentStart false; ESequenceStart 0%N None;
+       EMappingStart 0%N None; null_ev;
+         EMappingStart 0%N None; null_ev;
+           EMappingStart 0%N None; null_ev; null_ev; EMappingEnd;
+         EMappingEnd;
+       EMappingEnd;
+     ESequenceEnd; EDocumentEnd; EStreamEnd]
+  /\ snd (parse_tokens (cflow_tokens 3) SEnded false) = PDone
+  /\ max_nesting (evs_of (fst (parse_tokens (cflow_tokens 3) SEnded false))) = 4.
+Proof. vm_compute. repeat split; reflexivity. Qed.
+(* beyond the limit of the code: 300 nested mappings at flow level 1 *)
+Example C11_bypass_300 :
+  tok_flow_max (cflow_tokens 300) = 1
+  /\ snd (parse_tokens (cflow_tokens 300) SEnded false) = PDone
+  /\ N.to_nat Consts.FLOW_LEVEL_MAX < max_nesting (evs_of (fst (parse_tokens (cflow_tokens 300) SEnded false))).
+Proof. vm_compute. repeat split; apply PeanoNat.Nat.leb_le; vm_compute; reflexivity. Qed.
+(* the flow level of real '{' and '[' is counted: "{a: [b, {c: d}]}" reaches level 3 *)
+Example C11_flow_level_counts_real_indicators :
+  tok_flow_max (fst (scan_str [123; 97; 58; 32; 91; 98; 44; 32; 123; 99; 58; 32; 100; 125; 93; 125]%N)) = 3.
+Proof. vm_compute. reflexivity. Qed.
+(* the repaired family, concretely (d = 3): text, scanner model, parser model *)
+Example C11_qflow_3_text :      (* the code points of  [ ? ] , [ ? ] , [ ? ] ]]]  *)
+  qflow_text 3 = [91; 32; 63; 32; 93; 32; 44; 32; 91; 32; 63; 32; 93; 32; 44; 32; 91; 32; 63; 32; 93; 32; 93; 93; 93]%N.
+Proof. reflexivity. Qed.
+Example C11_qflow_3_scanned :
   map snd (fst (scan_str (qflow_text 3))) = map snd (qflow_tokens 3) /\ snd (scan_str (qflow_text 3)) = SEnded.
 Proof. vm_compute. split; reflexivity. Qed.
-Example C11_bypass_3_flow_level : tok_flow_max (qflow_tokens 3) = 1.
-Proof. reflexivity. Qed.
-Example C11_bypass_3_events :
-  evs_of (fst (parse_tokens (qflow_tokens 3) SEnded false))
-  = [EStreamStart; EDocumentStart false;
+Example C11_qflow_3_rejected :
+  evs_of (fst (run_str (qflow_text 3))) = qflow_prefix_events
+  /\ (exists m, snd (run_str (qflow_text 3)) = PParseErr 3 m /\ m_index m = 6%N).
+Proof. vm_compute. split; [reflexivity|]. eexists. split; reflexivity. Qed.
+(* the factor 2 of (g) is reached: "[ ? [ ? [ ? a ] ] ]" — three '[' tokens, six collections open at the scalar *)
+Example C11_factor_two_is_tight :
+  let text := [91; 32; 63; 32; 91; 32; 63; 32; 91; 32; 63; 32; 97; 32; 93; 32; 93; 32; 93]%N in
+  tok_nest_max (fst (scan_str text)) = 3 /\ other_openers (fst (scan_str text)) = 0
+  /\ max_nesting (evs_of (fst (run_str text))) = 6 /\ snd (run_str text) = PDone.
+Proof. vm_compute. repeat split; reflexivity. Qed.
+(* what (i) charges to the two recorded classes: d block collection starts in "- " * d ++ "a", d synthetic
+   FlowMappingStart tokens in "[ : : ... }}}]" *)
+Example C11_other_openers_of_the_families :
+  other_openers (seq_tokens_flat 5) = 5 /\ other_openers (cflow_tokens 5) = 5 /\ other_openers (qflow_tokens 5) = 0
+  /\ tok_nest_max (seq_tokens_flat 5) = 5 /\ tok_nest_max (cflow_tokens 5) = 6 /\ tok_nest_max (qflow_tokens 5) = 1.
+Proof. vm_compute. repeat split; reflexivity. Qed.
+(* the scanner model does reject the 256th '[' (so the bound of (h) is the limit of the code, not an artefact) *)
+Example C11_flow_limit_reached :
+  tok_flow_max (fst (scan_str (repeat 91%N 255))) = 255
+  /\ (exists m, snd (scan_str (repeat 91%N 256)) = SError 45 m).
+Proof. vm_compute. split; [reflexivity|eexists; reflexivity]. Qed.
+(* the oracle is not trivially true: on the token stream of the repaired family with the events the OLD parser delivered
+   for it (three nested sequences, see the fixed entry of known_findings_c11.jsonl) verdict (g) is false *)
+Example C11_oracle_rejects_the_old_behaviour :
+  c11_oracle (qflow_tokens 3)
+    [EStreamStart; EDocumentStart false;
      ESequenceStart 0%N None; EMappingStart 0%N None; null_ev; null_ev; EMappingEnd;
        ESequenceStart 0%N None; EMappingStart 0%N None; null_ev; null_ev; EMappingEnd;
          ESequenceStart 0%N None; EMappingStart 0%N None; null_ev; null_ev; EMappingEnd;
-         ESequenceEnd;
-       ESequenceEnd;
-     ESequenceEnd; EDocumentEnd; EStreamEnd]
-  /\ snd (parse_tokens (qflow_tokens 3) SEnded false) = PDone
-  /\ max_nesting (evs_of (fst (parse_tokens (qflow_tokens 3) SEnded false))) = 4.
+         ESequenceEnd; ESequenceEnd; ESequenceEnd; EDocumentEnd; EStreamEnd]
+  = (true, false, true).
+Proof. vm_compute. reflexivity. Qed.
+(* the hypothesis of the recursion bound is satisfiable and the bound is not far off: "[ ? [ ? [ ? a ] ] ]" *)
+Example C11_push_loader_on_text :
+  let text := [91; 32; 63; 32; 91; 32; 63; 32; 91; 32; 63; 32; 97; 32; 93; 32; 93; 32; 93]%N in
+  pl_document 100 (tl (evs_of (fst (run_str text)))) = PlDone [EStreamEnd] 7.
+Proof. vm_compute. reflexivity. Qed.
+(* aliases are outside (b2)'s bound: "- &a [x]" / "- &b [*a]" / "- &c [*b]" nests 2 deep and loads to a tree of depth 4 *)
+Example C11_alias_deepens_the_tree :
+  let text := [45; 32; 38; 97; 32; 91; 120; 93; 10;  45; 32; 38; 98; 32; 91; 42; 97; 93; 10;  45; 32; 38; 99; 32; 91; 42; 98; 93; 10]%N in
+  snd (run_str text) = PDone /\ max_nesting (evs_of (fst (run_str text))) = 2
+  /\ alias_free_events (evs_of (fst (run_str text))) = false
+  /\ match load_events (evs_of (fst (run_str text))) l0 with LOk ld => map ydepth (l_docs ld) = [4] | LPanic _ => False end.
 Proof. vm_compute. repeat split; reflexivity. Qed.
-(* beyond the limit of the code: 300 nested sequences at flow level 1 *)
-Example C11_bypass_300 :
-  tok_flow_max (qflow_tokens 300) = 1
-  /\ snd (parse_tokens (qflow_tokens 300) SEnded false) = PDone
-  /\ N.to_nat Consts.FLOW_LEVEL_MAX < max_nesting (evs_of (fst (parse_tokens (qflow_tokens 300) SEnded false))).
-Proof. vm_compute. repeat split; apply PeanoNat.Nat.leb_le; vm_compute; reflexivity. Qed.
+(* ... and the hypotheses of the tree bound are satisfiable *)
+Example C11_tree_bound_applies :
+  let text := [91; 32; 63; 32; 91; 32; 63; 32; 91; 32; 63; 32; 97; 32; 93; 32; 93; 32; 93]%N in
+  snd (run_str text) = PDone /\ alias_free_events (evs_of (fst (run_str text))) = true
+  /\ match load_events (evs_of (fst (run_str text))) l0 with LOk ld => map ydepth (l_docs ld) = [6] | LPanic _ => False end.
+Proof. vm_compute. repeat split; reflexivity. Qed.
